@@ -211,4 +211,75 @@ theorem less_tri {a b : DV} (ha : InList s l a) (hb : InList s l b)
 
 end laws
 
+/-! ### the hypothesis in decidable form -/
+
+/-- **Hypothesis `OrderLawful`** (what the sorting theorems use): on the decorated elements of
+the list, `less` is a strict weak order whose ties have identical version strings. It follows
+from `CmpLawful` (`orderLawful_of_cmpLawful`), hence holds for every NPM / PyPI / default-system
+list, and it is decidable for a concrete list (`orderLawfulB_iff`): its negation is the
+classifier of finding F-C12-mvn-intrans. -/
+structure OrderLawful (s : Semver.System) (l : List Resolve.Match.Version) : Prop where
+  weak : StrictWeakOn less (InList s l)
+  tri : ∀ a b, InList s l a → InList s l b → less a b = false → less b a = false →
+    a.v.key.version = b.v.key.version
+
+theorem orderLawful_of_cmpLawful {s : Semver.System} {l : List Resolve.Match.Version} (H : CmpLawful s l) :
+    OrderLawful s l :=
+  ⟨less_strictWeakOn H, fun _ _ ha hb => less_tri H ha hb⟩
+
+theorem inList_iff {s : Semver.System} {l : List Resolve.Match.Version} {d : DV} :
+    InList s l d ↔ d ∈ l.map (dec s) := by
+  simp only [InList, List.mem_map]
+  constructor
+  · rintro ⟨v, hv, rfl⟩; exact ⟨v, hv, rfl⟩
+  · rintro ⟨v, hv, rfl⟩; exact ⟨v, hv, rfl⟩
+
+theorem OrderLawful.perm {s : Semver.System} {l₁ l₂ : List Resolve.Match.Version} (h : OrderLawful s l₁)
+    (p : l₁.Perm l₂) : OrderLawful s l₂ := by
+  have e : ∀ d, InList s l₂ d → InList s l₁ d := fun d ⟨v, hv, hd⟩ => ⟨v, p.mem_iff.mpr hv, hd⟩
+  exact ⟨h.weak.mono e, fun a b ha hb => h.tri a b (e a ha) (e b hb)⟩
+
+theorem orderLawfulB_iff (s : Semver.System) (l : List Resolve.Match.Version) :
+    orderLawfulB s l = true ↔ OrderLawful s l := by
+  unfold orderLawfulB
+  simp only [List.all_eq_true, Bool.and_eq_true, Bool.or_eq_true, Bool.not_eq_true', beq_iff_eq]
+  constructor
+  · intro h
+    refine ⟨⟨?_, ?_⟩, ?_⟩
+    · intro a b ha hb hab
+      rcases (h a (inList_iff.mp ha) b (inList_iff.mp hb)).1.1 with h1 | h1
+      · rw [hab] at h1; cases h1
+      · exact h1
+    · intro a b c ha hb hc h1 h2
+      rcases (h a (inList_iff.mp ha) b (inList_iff.mp hb)).2 c (inList_iff.mp hc) with (h3 | h3) | h3
+      · rw [h1] at h3; cases h3
+      · rw [h2] at h3; cases h3
+      · exact h3
+    · intro a b ha hb h1 h2
+      rcases (h a (inList_iff.mp ha) b (inList_iff.mp hb)).1.2 with (h3 | h3) | h3
+      · rw [h1] at h3; cases h3
+      · rw [h2] at h3; cases h3
+      · exact h3
+  · intro ⟨⟨hasym, htrans⟩, htri⟩ a ha b hb
+    have ia := inList_iff.mpr ha
+    have ib := inList_iff.mpr hb
+    refine ⟨⟨?_, ?_⟩, ?_⟩
+    · cases hab : less a b with
+      | false => exact Or.inl rfl
+      | true => exact Or.inr (hasym a b ia ib hab)
+    · cases hab : less a b with
+      | true => exact Or.inl (Or.inl rfl)
+      | false =>
+        cases hba : less b a with
+        | true => exact Or.inl (Or.inr rfl)
+        | false => exact Or.inr (htri a b ia ib hab hba)
+    · intro c hc
+      have ic := inList_iff.mpr hc
+      cases hba : less b a with
+      | true => exact Or.inl (Or.inl rfl)
+      | false =>
+        cases hcb : less c b with
+        | true => exact Or.inl (Or.inr rfl)
+        | false => exact Or.inr (htrans a b c ia ib ic hba hcb)
+
 end DepsDev.Proofs.C12Order
